@@ -100,16 +100,17 @@ func (e *emitter) emit(v interface{}) {
 }
 
 type sessionEnv struct {
-	pt     *protoTable
-	w      *world
-	wj     *worldJ
-	ledger *ledgerFs
-	ln     *memListener
-	reg    *registry
-	em     *emitter
-	lastFP string
-	srvErr chan error
-	index  int
+	pt      *protoTable
+	w       *world
+	wj      *worldJ
+	ledger  *ledgerFs
+	ln      *memListener
+	reg     *registry
+	em      *emitter
+	lastFP  string
+	srvErr  chan error
+	index   int
+	viewGen int
 }
 
 func cmdSession(args []string) error {
@@ -239,30 +240,7 @@ func runWorld(pt *protoTable, wj *worldJ, em *emitter, index int) error {
 	defer ln.Close()
 
 	// reference content of the generated images the script will open
-	var viewsOut []map[string]interface{}
-	for _, v := range wj.Views {
-		name := "viso:" + v.Vk + ":/" + strings.Join(v.P, "/")
-		ref, err := pfs.NewVirtualISO(afero.NewBasePathFs(afero.NewOsFs(), w.root), "/"+filepath.Join(v.P...), v.Vk == "ps3")
-		if err != nil {
-			continue // no such image: the spec expects the open to fail
-		}
-		data, err := io.ReadAll(ref)
-		ref.Close()
-		if err != nil {
-			// the library view cannot be read sequentially: no reference; recorded so that TLC rejects an open
-			viewsOut = append(viewsOut, map[string]interface{}{"vk": v.Vk, "p": nonNil(v.P), "cid": "?unreadable:" + err.Error(), "size": pos(-1)})
-			continue
-		}
-		mask := v.Mask
-		if mask == nil {
-			mask = varMask(v.Vk == "ps3")
-		}
-		reg.add(&memSource{name: name, data: data, mask: mask})
-		viewsOut = append(viewsOut, map[string]interface{}{"vk": v.Vk, "p": nonNil(v.P), "cid": name, "size": pos(int64(len(data)))})
-	}
-	if viewsOut == nil {
-		viewsOut = []map[string]interface{}{}
-	}
+	viewsOut := env.buildViews()
 
 	nodes, fp, err := w.snapshot()
 	if err != nil {
@@ -351,6 +329,34 @@ func runWorld(pt *protoTable, wj *worldJ, em *emitter, index int) error {
 	return nil
 }
 
+// buildViews (re)computes, through the library, the reference image of every
+// declared virtual-image path for the tree as it is now.
+func (env *sessionEnv) buildViews() []map[string]interface{} {
+	env.viewGen++
+	viewsOut := []map[string]interface{}{}
+	for _, v := range env.wj.Views {
+		name := fmt.Sprintf("viso:%s:/%s#%d", v.Vk, strings.Join(v.P, "/"), env.viewGen)
+		ref, err := pfs.NewVirtualISO(afero.NewBasePathFs(afero.NewOsFs(), env.w.root), "/"+filepath.Join(v.P...), v.Vk == "ps3")
+		if err != nil {
+			continue // no such image: the spec expects the open to fail
+		}
+		data, err := io.ReadAll(ref)
+		ref.Close()
+		if err != nil {
+			// the library view cannot be read sequentially: no reference; recorded so that TLC rejects an open
+			viewsOut = append(viewsOut, map[string]interface{}{"vk": v.Vk, "p": nonNil(v.P), "cid": "?unreadable:" + err.Error(), "size": pos(-1)})
+			continue
+		}
+		mask := v.Mask
+		if mask == nil {
+			mask = varMask(v.Vk == "ps3")
+		}
+		env.reg.add(&memSource{name: name, data: data, mask: mask})
+		viewsOut = append(viewsOut, map[string]interface{}{"vk": v.Vk, "p": nonNil(v.P), "cid": name, "size": pos(int64(len(data)))})
+	}
+	return viewsOut
+}
+
 func nonNil(s []string) []string {
 	if s == nil {
 		return []string{}
@@ -386,7 +392,7 @@ func chunkBytes(name string, n int) []byte {
 // buildFrame returns the bytes to send and the abstract request for the trace.
 func (env *sessionEnv) buildFrame(r *reqJ) ([]byte, map[string]interface{}, error) {
 	req := map[string]interface{}{"op": r.Op, "path": []string{}, "limit": pos(0), "off": pos(0), "start": 0, "count": 0,
-		"plen": 0, "chunk": "", "hugeArgs": false}
+		"plen": 0, "chunk": "", "hugeArgs": false, "of": "", "cut": 0}
 	od := env.pt.byName[r.Op]
 	if od == nil {
 		return nil, nil, fmt.Errorf("op %q not in protocol table", r.Op)
@@ -487,7 +493,7 @@ func (env *sessionEnv) doReq(c *memConn, cj *connJ, r *reqJ) bool {
 		b := make([]byte, env.pt.CommandLen)
 		b[0], b[1] = byte(code>>8), byte(code)
 		return env.exchange(c, cj, "BAD_OPCODE", map[string]interface{}{"op": "BAD_OPCODE", "path": []string{}, "limit": pos(0), "off": pos(0),
-			"start": 0, "count": 0, "plen": 0, "chunk": "", "hugeArgs": false}, b, nil)
+			"start": 0, "count": 0, "plen": 0, "chunk": "", "hugeArgs": false, "of": "", "cut": 0}, b, nil)
 	}
 	frameBytes, req, err := env.buildFrame(r)
 	if err != nil {
@@ -521,7 +527,7 @@ func (env *sessionEnv) hasTail(op, name string) (fieldDef, bool) {
 // doFrame sends a frame obtained by re-framing a raw byte stream.
 func (env *sessionEnv) doFrame(c *memConn, cj *connJ, fr frame) bool {
 	req := map[string]interface{}{"op": fr.Op, "path": []string{}, "limit": pos(0), "off": pos(0), "start": 0, "count": 0,
-		"plen": 0, "chunk": "", "hugeArgs": false}
+		"plen": 0, "chunk": "", "hugeArgs": false, "of": fr.Of, "cut": len(fr.Bytes)}
 	var hint *int64
 	if od := env.pt.byName[fr.Op]; od != nil {
 		huge := false
@@ -577,7 +583,11 @@ func (env *sessionEnv) exchange(c *memConn, cj *connJ, op string, req map[string
 	if closed {
 		env.awaitRelease(cj.ID)
 	}
-	resp, payload := env.pt.decodeResp(op, out)
+	decodeOp := op
+	if of, _ := req["of"].(string); op == "TRUNCATED" && of != "" {
+		decodeOp = of // a reply to a cut request is read with the layout of the request it answers
+	}
+	resp, payload := env.pt.decodeResp(decodeOp, out)
 	if payload != nil {
 		var runs []run
 		switch {
@@ -590,7 +600,11 @@ func (env *sessionEnv) exchange(c *memConn, cj *connJ, op string, req map[string
 			}
 			runs = []run{{Srcs: srcs, Off: pos(*hint), Len: len(payload)}}
 		default:
-			runs = env.reg.describe(payload)
+			block := 0
+			if od := env.pt.byName[decodeOp]; od != nil {
+				block = od.Block
+			}
+			runs = env.reg.describeBlocks(payload, block)
 		}
 		resp["runs"] = runs
 	}
@@ -600,10 +614,12 @@ func (env *sessionEnv) exchange(c *memConn, cj *connJ, op string, req map[string
 	if err != nil {
 		ev["mut"] = true
 		ev["tree"] = []nodeJ{}
+		ev["views"] = []map[string]interface{}{}
 		ev["snapErr"] = err.Error()
 	} else if fp != env.lastFP {
 		ev["mut"] = true
 		ev["tree"] = nodes
+		ev["views"] = env.buildViews()
 		env.lastFP = fp
 	} else {
 		ev["mut"] = false
